@@ -894,7 +894,11 @@ func (e *Engine) carriedInStruct(s *fstate, v, a ssa.Value, c, b *ssa.BasicBlock
 		return false
 	}
 	// the value is read back out of the checked struct: spec := T{…}; if err := spec.validate(); …; use(spec.width)
-	if ld, ok := v.(*ssa.UnOp); ok && ld.Op == token.MUL {
+	// — only when the checker received the struct by value (it cannot have written the caller's copy;
+	// a method with a pointer receiver may be the one that assigns the field)
+	if _, byValue := a.(*ssa.UnOp); !byValue {
+		// fall through to the stored-value test below
+	} else if ld, ok := v.(*ssa.UnOp); ok && ld.Op == token.MUL {
 		if fa, ok := ld.X.(*ssa.FieldAddr); ok && fa.X == ssa.Value(al) {
 			return true
 		}
